@@ -242,7 +242,7 @@ func c03r1(c *core.Ctx) {
 					rel := m.ExprString(call.Args[0])
 					want := relationExprs(m, f)
 					subject := fmt.Sprintf("%s: per-target lookup with %s", f.Name, rel)
-					if want[rel] {
+					if want[rel] || chainIn(m, f, call.Args[0], want) {
 						c.OK("C03/R1c", subject, c.At(call.Pos()), "lookup uses the relations of the query / batch / filter")
 					} else {
 						c.Violation("C03/R1c", subject, c.At(call.Pos()), fmt.Sprintf("%s looks up relation tables with %s, which is not the relation list that the re-check uses (%v)", f.Name, rel, keysOf(want)))
@@ -548,7 +548,17 @@ func relationTableVars(c *core.Ctx, sr *selRoles, f *core.Func) []relTableVar {
 func dominatedUse(c *core.Ctx, sr *selRoles, f *core.Func, tv relTableVar, kind string) (bool, string) {
 	m := c.M
 	isT := func(e ast.Expr) bool {
-		id, ok := ast.Unparen(e).(*ast.Ident)
+		e = ast.Unparen(e)
+		if u, ok := e.(*ast.UnaryExpr); ok && u.Op == token.AND {
+			e = ast.Unparen(u.X)
+		}
+		// tables[tab] with the loop's id variable is the table itself
+		if ix, ok := e.(*ast.IndexExpr); ok && tv.idVar != nil {
+			if id, ok := ast.Unparen(ix.Index).(*ast.Ident); ok && m.Info.ObjectOf(id) == tv.idVar {
+				return true
+			}
+		}
+		id, ok := e.(*ast.Ident)
 		if !ok {
 			return false
 		}
@@ -610,28 +620,27 @@ func dominatedUse(c *core.Ctx, sr *selRoles, f *core.Func, tv relTableVar, kind 
 			if !ok || rv == nil || !isT(rv) || len(call.Args) != 1 {
 				return false
 			}
+			relSet := map[string]bool{}
 			for _, r := range tv.rels {
-				if m.ExprString(call.Args[0]) == r {
-					return true
-				}
+				relSet[r] = true
 			}
-			return false
+			return chainIn(m, f, call.Args[0], relSet)
 		case "nonempty":
 			be, ok := e.(*ast.BinaryExpr)
 			if !ok || m.ExprString(be.Y) != "0" {
 				return false
 			}
-			l := ast.Unparen(be.X)
-			base := ""
+			l := ast.Unparen(m.StripConv(be.X))
+			var base ast.Expr
 			switch y := l.(type) {
 			case *ast.SelectorExpr:
-				base = m.ExprString(y.X)
+				base = y.X
 			case *ast.CallExpr:
 				if sel, ok := ast.Unparen(y.Fun).(*ast.SelectorExpr); ok {
-					base = m.ExprString(sel.X)
+					base = sel.X
 				}
 			}
-			if tv.v == nil || base != tv.v.Name() {
+			if tv.v == nil || base == nil || !isT(base) {
 				return false
 			}
 			op := be.Op.String()
@@ -810,20 +819,21 @@ func c03r2(c *core.Ctx) {
 		if f.Recv != "" || !strings.HasPrefix(f.Name, "NewFilter") {
 			continue
 		}
-		core.InspectNoLits(f.Body, func(n ast.Node) bool {
-			cl, ok := n.(*ast.CompositeLit)
-			if !ok || !strings.HasPrefix(core.NamedName(m.Info.TypeOf(cl)), "Filter") {
-				return true
+		for _, cn := range constructionsOf(m, f) {
+			if !strings.HasPrefix(cn.typ, "Filter") {
+				continue
 			}
+			cl := cn.node
 			var idsV, filterV string
-			for _, e := range cl.Elts {
-				if kv, ok := e.(*ast.KeyValueExpr); ok {
-					switch kv.Key.(*ast.Ident).Name {
-					case "ids":
-						idsV = m.ExprString(kv.Value)
-					case "filter":
-						filterV = m.ExprString(kv.Value)
-					}
+			for k, v := range cn.fields {
+				if ownerOf(k) != cn.typ {
+					continue
+				}
+				switch strings.TrimPrefix(k, cn.typ+".") {
+				case "ids":
+					idsV = m.ExprString(v)
+				case "filter":
+					filterV = m.ExprString(v)
 				}
 			}
 			subject := f.Name + ": constructor"
@@ -834,8 +844,7 @@ func c03r2(c *core.Ctx) {
 			} else {
 				c.Violation("C03/R2b", subject, c.At(cl.Pos()), fmt.Sprintf("%s: filter mask (%s) is not built from the id list (%s)", f.Name, filterV, idsV))
 			}
-			return true
-		})
+		}
 	}
 	// (c) zero-parameter queries use the hint only when the filter has required components
 	for _, f := range m.Funcs {
